@@ -6,11 +6,27 @@ V = os.path.dirname(os.path.dirname(os.path.abspath(__file__)))
 RULE = {'D40': 'R8', 'D39': 'R7', 'D38': 'R6', 'D37': 'R11', 'D36': 'R12', 'D35': 'R11', 'D34': 'R10', 'D33': 'R9', 'D32': 'R11', 'D31': 'R10', 'D30': 'R9', 'D29': 'R8', 'D26b': 'R8', 'D28': 'R7', 'D27': 'R9', 'D26': 'R8', 'D25': 'R8', 'D24': 'R4', 'D23': 'R6', 'D22': 'R3', 'D21': 'R6', 'D19': 'R4', 'D20': 'R5', 'D1': 'R1', 'D2': 'R2', 'D3': 'R1', 'D4': 'R2', 'D5': 'R4', 'D6': 'R2', 'D7': 'R3', 'D8a': 'R1', 'D8b': 'R4', 'D9': 'R2',
         'D10': 'R3', 'D11a': 'R1', 'D11b': 'R2', 'D11c': 'R3', 'D12': 'R6/R7', 'D13': 'R4', 'D14': 'R2', 'D15': 'R2', 'D16': 'R3',
         'D17': 'R1', 'D18': 'R6'}
+ALSO_REVERT = {'D26': ['2cc7e70']}
 kf = json.load(open(os.path.join(V, 'known_findings.json')))
 for line in kf['fixed']:
     m = re.match(r'fixed: property=(C\d+) ([0-9a-f]+) (.*) \((D\w+)\)$', line)
     prop, h, what, d = m.groups()
     diff = subprocess.check_output(['git', '-C', '/repo', 'diff', h, h + '^', '--', 'lib', 'include'], text=True)
+    if d in ALSO_REVERT:
+        # a later fix: builds on this one: the reverse of this commit alone no longer compiles; revert the follow-up with it
+        import tempfile, shutil
+        wt = tempfile.mkdtemp(prefix='qbregress-')
+        os.rmdir(wt)
+        subprocess.check_call(['git', '-C', '/repo', 'worktree', 'add', '-q', '--detach', wt, 'HEAD'])
+        try:
+            ok = True
+            for c in ALSO_REVERT[d] + [h]:
+                r = subprocess.run(['git', '-C', wt, 'revert', '--no-commit', c], capture_output=True, text=True)
+                ok = ok and r.returncode == 0
+            if ok:
+                diff = subprocess.check_output(['git', '-C', wt, 'diff', 'HEAD', '--', 'lib', 'include'], text=True)
+        finally:
+            subprocess.run(['git', '-C', '/repo', 'worktree', 'remove', '--force', wt])
     chk = subprocess.run(['git', '-C', '/repo', 'apply', '--check', '-'], input=diff, text=True, capture_output=True)
     path = os.path.join(V, 'mutants', '%s-regress-%s.patch' % (prop, d))
     if chk.returncode != 0:
